@@ -29,6 +29,8 @@ pub struct Hist {
     /// sequence oracle bookkeeping per receiver: (highest accepted counter, ciphertexts rejected since)
     pub win_dev: (u64, u64),
     pub win_rdr: (u64, u64),
+    /// a library call panicked in this history: recorded as an observation, nothing further is run on it
+    pub dead: bool,
 }
 
 pub fn dev_outcome_class(o: &RequestAuthenticationOutcome) -> &'static str {
@@ -58,7 +60,7 @@ pub fn status_only(k: u8) -> Vec<u8> {
 impl Hist {
     pub fn start(ctx: &mut Ctx, sim: Sim, tag: &str) -> Hist {
         let mut h = Hist { sim, tag: tag.into(), to_dev: vec![], to_rdr: vec![], extra: vec![], ops: vec![], saved_ops_len: Default::default(),
-                           last_req_outcome: None, last_resp_outcome: None, n_enc_r: 1, n_enc_d: 0, spec13: false, saved: Default::default(), win_dev: (1, 0), win_rdr: (0, 0) };
+                           last_req_outcome: None, last_resp_outcome: None, n_enc_r: 1, n_enc_d: 0, spec13: false, saved: Default::default(), win_dev: (1, 0), win_rdr: (0, 0), dead: false };
         let d = h.sim.describe(&h.sim.establishment.clone(), &[]);
         h.to_dev.push((h.sim.establishment.clone(), d));
         let real = h.sim.summary();
@@ -117,12 +119,23 @@ impl Hist {
         let st = self.sim.dev_state_str();
         self.spec13_line(ctx, "notstuck", format!("spec.c13.notstuck {st}"));
     }
+    /// a library call panicked: the observation of `op` is "panic" (the model never says so), the
+    /// "nothing panics" clause of C13 gets its concrete history, and the history ends here
+    fn died(&mut self, ctx: &mut Ctx, op: String, msg: &str) {
+        self.dead = true;
+        self.emit(ctx, op.clone(), format!("panic {}", msg.replace(' ', "_").replace('\n', "_")));
+        if self.spec13 { ctx.emit.line("spec", &format!("spec:{}:no-panic", self.tag), "spec.eq panic no-panic".into(), "true".into(),
+            serde_json::json!({"history": self.ops.clone(), "panicked_in": op, "message": msg})); }
+    }
     fn emit(&mut self, ctx: &mut Ctx, op: String, real: String) {
         self.ops.push(op.clone());
         ctx.emit.corr(&self.tag, op, real);
     }
     pub fn new_request(&mut self, ctx: &mut Ctx, elems: &[&str]) -> Vec<u8> {
-        let msg = match self.sim.rdr.new_request(sess::simple_namespaces(elems)) {
+        if self.dead { return vec![]; }
+        let r = crate::guarded(std::panic::AssertUnwindSafe(|| self.sim.rdr.new_request(sess::simple_namespaces(elems))));
+        let r = match r { Ok(r) => r, Err(e) => { self.died(ctx, "sess.newRequest".into(), &e); return vec![]; } };
+        let msg = match r {
             Ok(m) => m,
             Err(_) => {
                 // send counter used up: no request, nothing changes (Model: `Reader.newRequest` = (r, none))
@@ -143,8 +156,10 @@ impl Hist {
         msg
     }
     pub fn handle_request(&mut self, ctx: &mut Ctx, msg: &[u8], desc: &str) {
+        if self.dead { return; }
         let rb = self.ready_bytes();
-        let o = self.sim.dev.handle_request(msg);
+        let o = match crate::guarded(std::panic::AssertUnwindSafe(|| self.sim.dev.handle_request(msg))) {
+            Ok(o) => o, Err(e) => { self.died(ctx, format!("sess.handleRequest {desc}"), &e); return; } };
         let real = format!("{} {}", dev_outcome_class(&o), self.sim.summary());
         self.window_spec(ctx, true, desc, dev_outcome_class(&o).starts_with("accepted"));
         let malformed = dev_outcome_class(&o) == "accepted:malformed";
@@ -156,11 +171,13 @@ impl Hist {
     }
     /// prepare_response for the given doc types, all default elements permitted
     pub fn prepare(&mut self, ctx: &mut Ctx, doc_types: &[&str]) {
+        if self.dead { return; }
         let requests: Vec<ItemsRequest> = doc_types.iter().map(|d| ItemsRequest {
             doc_type: d.to_string(), namespaces: sess::simple_namespaces(&["family_name", "age_over_18", "not_held"]), request_info: None }).collect();
         let permitted = sess::permit_all(doc_types, &["family_name", "age_over_18", "not_held"]);
         let rb = self.ready_bytes();
-        self.sim.dev.prepare_response(&requests, permitted);
+        if let Err(e) = crate::guarded(std::panic::AssertUnwindSafe(|| self.sim.dev.prepare_response(&requests, permitted))) {
+            self.died(ctx, "sess.prepare ?".into(), &e); return; }
         // tape: which documents were prepared, in order, is read from the real state
         let p = sess::peek_device(&self.sim.dev);
         let docs = match &p.state {
@@ -176,6 +193,7 @@ impl Hist {
         self.note_device_encryption(ctx, &rb);
     }
     pub fn get_next(&mut self, ctx: &mut Ctx) -> Option<Vec<u8>> {
+        if self.dead { return None; }
         let (real, payload) = match self.sim.dev.get_next_signature_payload() {
             None => ("none".to_string(), None),
             Some((uuid, payload)) => {
@@ -195,6 +213,7 @@ impl Hist {
     }
     /// submit a signature: a real one over the offered payload if there is one, else dummy bytes
     pub fn submit(&mut self, ctx: &mut Ctx, dummy: bool) {
+        if self.dead { return; }
         let payload = self.sim.dev.get_next_signature_payload().map(|(_, p)| p.to_vec());
         let (id, sig) = match (&payload, dummy) {
             (Some(p), false) => self.sim.sign_real(p),
@@ -208,6 +227,7 @@ impl Hist {
         let before = pb.dev_ctr;
         let rb = self.ready_bytes();
         let r = crate::guarded(std::panic::AssertUnwindSafe(|| self.sim.dev.submit_next_signature(sig)));
+        if let Err(e) = &r { let e = e.clone(); self.died(ctx, format!("sess.submit {id}"), &e); return; }
         let real = match r {
             Err(_) => "panic".to_string(),
             Ok(_) => {
@@ -225,15 +245,18 @@ impl Hist {
         self.note_device_encryption(ctx, &rb);
     }
     pub fn response_ready(&mut self, ctx: &mut Ctx) {
+        if self.dead { return; }
         let real = self.sim.dev.response_ready().to_string();
         self.emit(ctx, "sess.responseReady".into(), real.clone());
         let st = self.sim.dev_state_str();
         self.spec13_line(ctx, "ready", format!("spec.c13.ready {real} {st}"));
     }
     pub fn retrieve(&mut self, ctx: &mut Ctx) -> Option<Vec<u8>> {
+        if self.dead { return None; }
         let ctr = sess::peek_device(&self.sim.dev).dev_ctr;
         let st_before = self.sim.dev_state_str();
-        let r = self.sim.dev.retrieve_response();
+        let r = match crate::guarded(std::panic::AssertUnwindSafe(|| self.sim.dev.retrieve_response())) {
+            Ok(r) => r, Err(e) => { self.died(ctx, "sess.retrieve".into(), &e); return None; } };
         let d = match &r { None => "none".to_string(), Some(b) => { let d = self.sim.describe(b, &[ctr]); self.to_rdr.push((b.clone(), d.clone())); d } };
         let real = format!("{d} {}", self.sim.summary());
         self.emit(ctx, "sess.retrieve".into(), real);
@@ -242,7 +265,9 @@ impl Hist {
         r
     }
     pub fn handle_response(&mut self, ctx: &mut Ctx, msg: &[u8], desc: &str) {
-        let o = self.sim.rdr.handle_response(msg);
+        if self.dead { return; }
+        let o = match crate::guarded(std::panic::AssertUnwindSafe(|| self.sim.rdr.handle_response(msg))) {
+            Ok(o) => o, Err(e) => { self.died(ctx, format!("sess.handleResponse {desc}"), &e); return; } };
         let real = format!("{} {}", rdr_outcome_class(&o), self.sim.summary());
         // accepted = the ciphertext decrypted (even if the plaintext then failed to parse as a DeviceResponse)
         let cls = rdr_outcome_class(&o);
@@ -252,16 +277,19 @@ impl Hist {
         self.emit(ctx, format!("sess.handleResponse {desc}"), real);
     }
     pub fn restore_device(&mut self, ctx: &mut Ctx) {
+        if self.dead { return; }
         self.sim.restore_device();
         let real = self.sim.summary();
         self.emit(ctx, "sess.restoreDevice".into(), real);
     }
     pub fn restore_reader(&mut self, ctx: &mut Ctx) {
+        if self.dead { return; }
         self.sim.restore_reader();
         let real = self.sim.summary();
         self.emit(ctx, "sess.restoreReader".into(), real);
     }
     pub fn set_counters(&mut self, ctx: &mut Ctx, de: u32, dd: u32, re: u32, rd: u32) {
+        if self.dead { return; }
         self.sim.set_counters(de, dd, re, rd);
         self.extra.extend([de, dd, re, rd]);
         self.n_enc_r = re as u64; self.n_enc_d = de as u64;
@@ -274,6 +302,7 @@ impl Hist {
     pub fn load(&mut self, ctx: &mut Ctx) { self.load_slot(ctx, 0) }
     pub fn save_slot(&mut self, ctx: &mut Ctx, k: u32) {
         use isomdl::presentation::Stringify;
+        if self.dead { return; }
         self.saved.insert(k, (self.sim.dev.stringify().unwrap(), self.sim.rdr.stringify().unwrap(), self.win_dev, self.win_rdr, self.n_enc_r, self.n_enc_d));
         self.emit(ctx, format!("sess.save {k}"), "saved".into());
         self.saved_ops_len.insert(k, self.ops.len());
@@ -285,6 +314,7 @@ impl Hist {
         self.sim.dev = isomdl::presentation::device::SessionManager::parse(d).unwrap();
         self.sim.rdr = isomdl::presentation::reader::SessionManager::parse(r).unwrap();
         self.win_dev = wd; self.win_rdr = wr;
+        self.dead = false;   // both objects are fresh copies of the saved state
         // the recorded history is a replayable script: returning to a saved state forgets what was tried after it
         if let Some(n) = self.saved_ops_len.get(&k) { self.ops.truncate(*n); }
         let real = self.sim.summary();
@@ -294,7 +324,9 @@ impl Hist {
     pub fn deliver_dev_c06(&mut self, ctx: &mut Ctx, msg: &[u8], desc: &str, honest: Option<bool>, what: &str) {
         let before = self.sim.dev_state_str();
         let enc_before = sess::peek_device(&self.sim.dev).dev_ctr;
+        if self.dead { return; }
         self.handle_request(ctx, msg, desc);
+        if self.dead { return; }
         let o = self.last_req_outcome.clone().unwrap();
         let after = self.sim.dev_state_str();
         let unchanged = before == after && enc_before == sess::peek_device(&self.sim.dev).dev_ctr;
@@ -311,7 +343,9 @@ impl Hist {
     }
     pub fn deliver_rdr_c06(&mut self, ctx: &mut Ctx, msg: &[u8], desc: &str, honest: Option<bool>, what: &str) {
         let enc_before = sess::peek_reader(&self.sim.rdr).rdr_ctr;
+        if self.dead { return; }
         self.handle_response(ctx, msg, desc);
+        if self.dead { return; }
         let o = self.last_resp_outcome.clone().unwrap();
         let unchanged = enc_before == sess::peek_reader(&self.sim.rdr).rdr_ctr;
         use isomdl::presentation::authentication::AuthenticationStatus as A;
@@ -329,6 +363,7 @@ impl Hist {
     /// one random operation from the C07/C13 alphabet; returns a short label
     pub fn random_op(&mut self, ctx: &mut Ctx, doc_types: &[&str]) -> &'static str {
         let k = ctx.rng.gen_range(0..100);
+        if self.dead { return "dead"; }
         match k {
             0..=13 => { self.new_request(ctx, &["family_name"]); "newRequest" }
             14..=27 => {
